@@ -120,6 +120,39 @@ class OpWorld(World):
         self.lock_calls = []
         self.cspecs = []  # (spec obj, contract, wrapper state, downstream adapter) of callee stages, in subscription order
         self.harness = None
+        #: virtual time (K1-T): the instant of the event being processed; one reading per step (A-time-step)
+        self.down_snaps = {"impl": [], "spec": []}
+        self.now_term = None
+        self.timers = []  # timers the real code scheduled: dict(due, action, state, handle)
+        self.spec_timers = []
+
+    def getattr(self, it, o, name):
+        if o.kind == "scheduler" and name == "now":
+            if self.now_term is None:
+                raise Unsupported("scheduler.now outside a timed contract")
+            return IntSV(self.now_term)
+        return super().getattr(it, o, name)
+
+    def schedule_timer(self, it, method, args, kwargs):
+        """scheduler.schedule / schedule_relative / schedule_absolute of the real code"""
+        if self.now_term is None:
+            raise Unsupported("scheduling outside a timed contract")
+        a = list(args)
+        if method == "schedule":
+            due = self.now_term
+            action = a[0]
+            state = kwargs.get("state", a[1] if len(a) > 1 else None)
+        else:
+            t = it.to_int(a[0])
+            # VirtualTimeScheduler semantics: an item due in the past runs at the current instant
+            due = (self.now_term + z3.If(t > 0, t, 0)) if method == "schedule_relative" else z3.If(t > self.now_term, t, self.now_term)
+            action = a[1]
+            state = kwargs.get("state", a[2] if len(a) > 2 else None)
+        h = Opaque("disposable", f"timer:{len(self.timers)}")
+        self.timers.append({"due": z3.simplify(due), "action": action, "state": state, "handle": h})
+        self.struct["impl"].append(("timer", z3.simplify(due)))
+        self.events.append(("timer", due))
+        return h
 
     def trace(self, name):
         if name not in self.traces:
@@ -274,6 +307,13 @@ class OpWorld(World):
                 v = args[0]
                 self.events.append(("down", o.name, "on_next", v))
                 tr.next(self.lift(it, v))
+                h = self.harness
+                if h is not None and getattr(h, "in_handler", False) and getattr(h.c, "reentrant", False) and tr.terminal is None:
+                    # the subscriber may call back into the operator from inside on_next: state must be consistent here
+                    if o.name == "observer":
+                        self.down_snaps["impl"].append(h.capture_impl())
+                    elif o.name == "spec_out" and h.cur_spec is not None:
+                        self.down_snaps["spec"].append(h.capture_spec(h.cur_spec))
                 return None
             if method == "on_error":
                 self.events.append(("down", o.name, "on_error", args[0]))
@@ -299,6 +339,31 @@ class OpWorld(World):
                     self.harness.cur_cells_env = env
                     self.harness.sub_snaps.append(self.harness.capture_impl(strict=True))
             return d
+        if k == "scheduler" and method in ("schedule", "schedule_relative", "schedule_absolute"):
+            return self.schedule_timer(it, method, args, kwargs)
+        if k == "scheduler" and method in ("to_seconds", "to_timedelta", "to_datetime"):
+            return args[0]  # A-time: representations of the same instant / span
+        if k == "observer" and o.name == "spec_out" and method in ("schedule_relative", "schedule_absolute", "schedule"):
+            # spec primitive: "a timer is set for this instant"
+            if method == "schedule":
+                due = self.now_term
+            else:
+                t = it.to_int(args[0])
+                due = (self.now_term + z3.If(t > 0, t, 0)) if method == "schedule_relative" else z3.If(t > self.now_term, t, self.now_term)
+            self.spec_timers.append(z3.simplify(due))
+            self.struct["spec"].append(("timer", z3.simplify(due)))
+            return None
+        if k == "observer" and o.name == "spec_out" and method == "now":
+            return IntSV(self.now_term)
+        if k == "observer" and o.name == "spec_out" and method == "cancel_timer":
+            self.struct["spec"].append(("cancel-timer",))
+            return None
+        if k == "disposable" and method == "dispose" and o.name.startswith("timer:"):
+            self.events.append(("dispose", o.name))
+            self.disposed.append(o)
+            if self.harness is not None and getattr(self.harness, "in_handler", False):
+                self.struct["impl"].append(("cancel-timer",))
+            return None
         if k == "disposable" and method == "dispose":
             self.events.append(("dispose", o.name))
             self.disposed.append(o)
@@ -422,6 +487,10 @@ def make_param(it, ctx, name, kind):
         return ctx.choose(2, name) == 0
     if kind == "val":
         return ctx.fresh(name, "val")
+    if kind == "datetime":
+        v = ctx.fresh(name, "int")
+        ctx.assume(v.t >= 0)
+        return SV(v.t, "int", tag="datetime")
     if kind == "callback":
         return Opaque("callback", name)
     if kind == "pred":
@@ -511,6 +580,14 @@ def havoc_cell(it, ctx, env_or_obj, name, kind, get, set_):
             cur.log, cur.symbolic, cur.hist = ctx.fresh(name, "seq").t, True, None
         else:
             set_(name, (SetObj if kind == "setlog" else DictObj)(None, log=ctx.fresh(name, "seq").t))
+    elif kind == "opttime":
+        # None, or an instant (A-time: instants are positive tick counts, so they are truthy like a datetime)
+        if ctx.choose(2, f"{name}_is_none") == 0:
+            set_(name, None)
+        else:
+            v = ctx.fresh(name, "int")
+            ctx.assume(v.t >= 1)
+            set_(name, v)
     elif kind == "optdisp":
         # nothing yet, or the disposable of an earlier (previous) inner subscription
         if ctx.choose(2, f"{name}_is_none") == 0:
@@ -782,6 +859,16 @@ class OpHarness:
         verdict = "refuted" if v == "sat" else "unknown"
         ctx.results.append(Result(oid, verdict, b, smt.model_to_dict(m), list(ctx.branch_log), detail, 0.0, kind))
 
+    def compare_down_calls(self, it, ctx, oid):
+        """re-entrancy discipline: at the k-th element handed to the subscriber the operator's state is already the one
+        the spec has at its k-th emission (the subscriber may call back into the operator from inside on_next)"""
+        w = self.w
+        si, ss = w.down_snaps["impl"], w.down_snaps["spec"]
+        for k in range(min(len(si), len(ss))):
+            t = self.inv_at(it, ctx, si[k], ss[k])
+            self.record(ctx, oid + f"/emission#{k}/inv-holds-when-emitting", t, kind="inv",
+                        detail="the subscriber may re-enter the operator synchronously from inside on_next")
+
     def compare_subscriptions(self, it, ctx, oid, n_before):
         """the inner sources the real code subscribed to during this step are exactly those the spec subscribes"""
         w = self.w
@@ -789,7 +876,8 @@ class OpHarness:
         if [e[0] for e in impl] != [e[0] for e in spec]:
             self.fail(ctx, oid + "/inner-subscriptions/order",
                       f"real code: {[e[0] for e in impl]}, spec: {[e[0] for e in spec]} "
-                      f"(sub = subscribes an inner source, dispose-prev = unsubscribes the previous inner)")
+                      f"(sub = subscribes an inner source, dispose-prev = unsubscribes the previous inner, timer = sets a timer, "
+                      f"cancel-timer = cancels a pending timer)")
             return False
         ok = True
         for a, b in zip(impl, spec):
@@ -798,6 +886,9 @@ class OpHarness:
             elif a[0] == "dispose-src":
                 ok &= self.record(ctx, oid + "/unsubscribes-the-right-source", a[1] == b[1],
                                   detail=f"real code releases source #{a[1]}, spec #{b[1]}")
+            elif a[0] == "timer":
+                ok &= self.record(ctx, oid + "/timers/set-for-the-same-instant", a[1] == b[1],
+                                  detail=f"real code: due {a[1]}, spec: due {b[1]}")
         # call-out discipline: a source may emit synchronously while it is being subscribed, so the coupling
         # invariant has to hold already at every such call-out (k-th of the real code with k-th of the spec)
         si, ss = w.snaps["impl"], w.snaps["spec"]
@@ -849,7 +940,10 @@ class OpHarness:
             else:
                 s.fields[k] = v
         try:
-            return self.check_inv(it, ctx, "", self.cur_cells_env, s)
+            # effective invariant: once the spec has terminated nothing the operator does is observable
+            inv = self.check_inv(it, ctx, "", self.cur_cells_env, s)
+            d = self.spec_done(it, ctx, s)
+            return natives.mk_or(d, inv)
         finally:
             for k, v in sfields.items():
                 s.fields[k] = v
@@ -1022,6 +1116,10 @@ class OpHarness:
             raise Unsupported(f"application result is not Observable(subscribe): {obs!r}")
         self.phase = "subscribe"
         self.sub_snaps = []
+        if getattr(c, "timed", False):
+            t_sub = ctx.fresh("t_sub", "int").t
+            ctx.assume(t_sub >= 1)  # instants are positive tick counts (a datetime is always truthy)
+            w.now_term = t_sub
         try:
             disp = it.call(sub, [observer, env.vars["scheduler"]], {})
         except PyExc as e:
@@ -1031,6 +1129,10 @@ class OpHarness:
             self.phase = "handlers"
         self.spec_call(it, s, "on_subscribe", [Opaque("observer", "spec_out")])
         self.compare_traces(ctx, f"{uid}/subscribe/out", w.trace("observer"), w.trace("spec_out"))
+        if getattr(c, "timed", False):
+            self.cur_spec = s
+            self.compare_subscriptions(it, ctx, f"{uid}/subscribe", 0)
+            s.fields["clock"] = IntSV(w.now_term)
         for k, snap in enumerate(self.sub_snaps):
             missing = [x[1] for x in snap if x[0] == "missing"]
             if missing:
@@ -1184,8 +1286,12 @@ class OpHarness:
             else:
                 raise Unsupported("spec lacks on_next")
         self.compare_traces(ctx, uid + "/out", w.trace("observer"), w.trace("spec_out"))
-        if c.elem == "source" or len(c.sources) > 1:
+        if getattr(c, "reentrant", False):
+            self.compare_down_calls(it, ctx, uid)
+        if c.elem == "source" or len(c.sources) > 1 or getattr(c, "timed", False):
             self.compare_subscriptions(it, ctx, uid, self.n_subs_before)
+        if getattr(c, "timed", False):
+            s.fields["clock"] = IntSV(w.now_term)
         if slot == 0:
             inv2 = self.check_inv(it, ctx, uid, cells_env, s)
             done2 = self.spec_done(it, ctx, s)
@@ -1198,12 +1304,21 @@ class OpHarness:
         w.spec_subs.clear()
         w.struct = {"impl": [], "spec": []}
         w.snaps = {"impl": [], "spec": []}
+        w.down_snaps = {"impl": [], "spec": []}
         w.lock_calls = []
         self.cell_writes = []
         self.n_subs_before = len(w.subs)
         self.cur_cells_env = cells_env
         self.cur_spec = s
         self.in_handler = True
+        if getattr(self.c, "timed", False) and not getattr(self, "fixed_time", False):
+            # this step happens at one instant, not before the previous one
+            t = self.it.ctx.fresh("t_step", "int").t
+            if "clock" in s.fields:
+                # the previous step happened at `clock`, at or after the subscription (instants are positive tick counts)
+                self.it.ctx.assume(z3.And(t >= self.it.to_int(s.fields["clock"]), self.it.to_int(s.fields["clock"]) >= 1))
+                s.fields["clock"] = IntSV(t)  # from here on `clock` is the instant of this step
+            w.now_term = t
 
     def run_family_handler(self, ctx, fam, slot):
         """a handler of a per-element family (inner subscription): created by one outer on_next from an arbitrary
@@ -1303,6 +1418,97 @@ class OpHarness:
             inv3 = self.check_inv(it, ctx, uid, member_env, s, extra=extra, more=F.get("inv"))
             self.record(ctx, uid + "/member-inv-preserved", natives.mk_or(done2, inv3), kind="inv")
 
+    def run_timer(self, ctx, name):
+        """a timer of the operator (K1-T): set by the creating step from an arbitrary state, then fired - at exactly its
+        due instant (scheduler contract, C28/C30) - from an arbitrary LATER state in which it is still pending"""
+        c = self.c
+        T = c.timers[name]
+        r = self.run_subscribe(ctx)
+        if r is None:
+            raise PathEnd()
+        it, w, cells_env, s, handlers = r
+        uid = f"{c.uid}/timer[{name}]"
+        created_in = T.get("created_in", "subscribe")
+        if created_in != "subscribe":
+            ctx.results.clear()
+            src, hn = created_in.split(".")
+            slot = ("on_next", "on_error", "on_completed").index(hn)
+            h = handlers.get(src, [None, None, None])[slot]
+            if h is None:
+                raise PathEnd()
+            self.havoc(it, ctx, cells_env, s)
+            done = self.spec_done(it, ctx, s)
+            if done if isinstance(done, bool) else ctx.branch(done, "already-terminated (creation)"):
+                raise PathEnd()
+            inv = self.check_inv(it, ctx, uid, cells_env, s)
+            ctx.assume(inv if not isinstance(inv, bool) else z3.BoolVal(inv))
+            n0 = len(w.timers)
+            self.begin_step(w, cells_env, s)
+            args = [self.make_element(it, ctx)] if slot == 0 else ([SV(ctx.fresh("err", "val").t, "val", tag="exc")] if slot == 1 else [])
+            try:
+                it.call(h, args, {})
+            except PyExc:
+                raise PathEnd()
+            self.spec_call(it, s, hn, [Opaque("observer", "spec_out")] + args)
+            created = w.timers[n0:]
+        else:
+            ctx.results.clear()
+            created = list(w.timers)
+        k = T.get("index", 0)
+        if len(created) <= k:
+            raise PathEnd()  # no such timer on this path
+        member = created[k]
+        action, due = member["action"], member["due"]
+        member_env = action.env if isinstance(action, Closure) and action.env is not None else cells_env
+        # the ghost identity of this timer (e.g. the generation it was set for), read off the spec right after its creation
+        ident = None
+        if T.get("id"):
+            ctx.spec += 1
+            ident = self.eval_src(it, T["id"], self.inv_env(it, cells_env, s))
+            ctx.spec -= 1
+        # --- an arbitrary later state in which this timer is still pending
+        self.havoc(it, ctx, cells_env, s)
+        done = self.spec_done(it, ctx, s)
+        is_done = done if isinstance(done, bool) else ctx.branch(done, "already-terminated")
+        extra = {"due": IntSV(due)}
+        if ident is not None:
+            extra["k"] = ident
+        if not is_done:
+            inv = self.check_inv(it, ctx, uid, member_env, s, extra=extra, more=T.get("inv"))
+            ctx.assume(inv if not isinstance(inv, bool) else z3.BoolVal(inv))
+        self.fixed_time = True
+        try:
+            self.begin_step(w, cells_env, s)
+        finally:
+            self.fixed_time = False
+        # it fires at its due instant, which is not before the previous event
+        w.now_term = due
+        if "clock" in s.fields:
+            ctx.assume(z3.And(due >= it.to_int(s.fields["clock"]), it.to_int(s.fields["clock"]) >= 1))
+        if is_done:
+            w.trace("observer").terminal = ("X",)
+            w.trace("spec_out").terminal = ("X",)
+        try:
+            it.call(action, [self.env.vars.get("scheduler"), member["state"]], {})
+        except PyExc as e:
+            self.fail(ctx, uid + "/no-exception-escapes", f"exception escapes into the scheduler: {e.value!r}", kind="exc")
+            return
+        if is_done:
+            self.record(ctx, uid + "/after-termination/no-exception-escapes", True, kind="exc")
+            return
+        out = Opaque("observer", "spec_out")
+        m = it.class_lookup(s.cls, T["spec"])
+        if m is None:
+            raise Unsupported(f"spec lacks {T['spec']}")
+        nargs = len(m.node.args.args) if hasattr(m, "node") else 2
+        self.spec_call(it, s, T["spec"], [out] + ([ident] if ident is not None else ([IntSV(due)] if nargs >= 3 else [])))
+        self.compare_traces(ctx, uid + "/out", w.trace("observer"), w.trace("spec_out"))
+        self.compare_subscriptions(it, ctx, uid, self.n_subs_before)
+        s.fields["clock"] = IntSV(due)
+        inv2 = self.check_inv(it, ctx, uid, cells_env, s)
+        done2 = self.spec_done(it, ctx, s)
+        self.record(ctx, uid + "/inv-preserved", natives.mk_or(done2, inv2), kind="inv")
+
     # -- driver -------------------------------------------------------------------------
     def run(self):
         c = self.c
@@ -1323,6 +1529,9 @@ class OpHarness:
                 for slot in (0, 1, 2):
                     paths = explore(lambda ctx, _f=fam, _k=slot: self.run_family_handler(ctx, _f, _k))
                     self._collect(paths)
+            for tname in getattr(c, "timers", {}):
+                paths = explore(lambda ctx, _t=tname: self.run_timer(ctx, _t))
+                self._collect(paths)
             if self.lockset and self.lock_sets:
                 common = set.intersection(*self.lock_sets)
                 self.results.append(Result(f"{c.uid}/lockset/one-common-lock", "proved" if common else "refuted", "lockset", {}, [],
